@@ -30,6 +30,8 @@ pub enum Op {
     Relin { save_seed: bool },
     Pk { save_seed: bool },
     Galois { elts: Vec<usize>, save_seed: bool },
+    /// Galois keys requested by rotation step counts (create_galois_keys_from_steps)
+    GaloisSteps { steps: Vec<isize>, save_seed: bool },
     KSwitch { save_seed: bool, seed: u64 },
     ApplyGalois { elt: usize, level: usize, seed: u64 },
     ApplyGaloisPlain { elt: usize, level: usize, seed: u64 },
@@ -52,6 +54,7 @@ impl Op {
             Op::Relin { .. } => "relin-keys",
             Op::Pk { .. } => "public-key",
             Op::Galois { .. } => "galois-keys",
+            Op::GaloisSteps { .. } => "galois-keys-from-steps",
             Op::KSwitch { .. } => "kswitch-key",
             Op::ApplyGalois { .. } => "apply-galois",
             Op::ApplyGaloisPlain { .. } => "apply-galois-plain",
@@ -69,6 +72,7 @@ impl Op {
             Op::Relin { save_seed } => json!({"op": "relin-keys", "save_seed": save_seed}),
             Op::Pk { save_seed } => json!({"op": "public-key", "save_seed": save_seed}),
             Op::Galois { elts, save_seed } => json!({"op": "galois-keys", "elts": elts, "save_seed": save_seed}),
+            Op::GaloisSteps { steps, save_seed } => json!({"op": "galois-keys-from-steps", "steps": steps, "save_seed": save_seed}),
             Op::KSwitch { save_seed, seed } => json!({"op": "kswitch-key", "save_seed": save_seed, "seed": seed}),
             Op::ApplyGalois { elt, level, seed } => json!({"op": "apply-galois", "elt": elt, "level": level, "seed": seed}),
             Op::ApplyGaloisPlain { elt, level, seed } => json!({"op": "apply-galois-plain", "elt": elt, "level": level, "seed": seed}),
@@ -89,6 +93,10 @@ impl Op {
             "public-key" => Op::Pk { save_seed: b("save_seed")? },
             "galois-keys" => Op::Galois {
                 elts: v["elts"].as_array()?.iter().map(|x| x.as_u64().map(|y| y as usize)).collect::<Option<Vec<_>>>()?,
+                save_seed: b("save_seed")?,
+            },
+            "galois-keys-from-steps" => Op::GaloisSteps {
+                steps: v["steps"].as_array()?.iter().map(|x| x.as_i64().map(|y| y as isize)).collect::<Option<Vec<_>>>()?,
                 save_seed: b("save_seed")?,
             },
             "kswitch-key" => Op::KSwitch { save_seed: b("save_seed")?, seed: u("seed")? },
@@ -277,6 +285,7 @@ pub fn exec_op(op: &Op, sh: &SharedObjs, su: &Setup) -> Vec<u8> {
         // an empty element list stands for the default key set (create_galois_keys)
         Op::Galois { elts, save_seed } if elts.is_empty() => ser_obj(Obj::Galois(sh.keygen.create_galois_keys(*save_seed)), &sh.ctx),
         Op::Galois { elts, save_seed } => ser_obj(Obj::Galois(sh.keygen.create_galois_keys_from_elts(elts, *save_seed)), &sh.ctx),
+        Op::GaloisSteps { steps, save_seed } => ser_obj(Obj::Galois(sh.keygen.create_galois_keys_from_steps(steps, *save_seed)), &sh.ctx),
         Op::KSwitch { save_seed, seed } => {
             // the "other" secret key: a canonical ternary key derived from the seed
             let other = gen::with_entropy(*seed, |_| KeyGenerator::new(w.ctx.clone()).secret_key().clone());
@@ -669,6 +678,16 @@ fn gen_scenario(rng: &mut Prng, run_seed: u64) -> Option<Scn> {
                 3 => Op::Relin { save_seed: rng.coin() },
                 4 => Op::Pk { save_seed: rng.coin() },
                 5 => {
+                    if rng.chance(1, 6) {
+                        // by step counts (needs a batching-capable ring: every spec here is one)
+                        let half = (n / 2) as isize;
+                        let pool = [1isize, 2, 3, -1, -2, half - 1];
+                        let steps: Vec<isize> = (0..rng.range(1, 3)).map(|_| *rng.pick(&pool)).filter(|s| s.unsigned_abs() < half as usize && *s != 0).collect();
+                        if !steps.is_empty() {
+                            ops.push(Op::GaloisSteps { steps, save_seed: rng.coin() });
+                            continue;
+                        }
+                    }
                     let mut elts = Vec::new();
                     // one request in five asks for the default key set (all power-of-two steps)
                     let default_set = rng.chance(1, 5);
